@@ -109,6 +109,9 @@ func goEnv() []string {
 
 // ---------------------------------------------------------------- scratch build
 
+// sharedDir holds what the child processes of one invocation build once and share (long templates, collision kits).
+var sharedDir = filepath.Join(os.TempDir(), "vcheck-shared")
+
 type scratch struct {
 	dir   string
 	repo  string
@@ -163,6 +166,7 @@ func newScratch(keep bool) *scratch {
 		fatal2("mktemp: %v", err)
 	}
 	s := &scratch{dir: d, repo: filepath.Join(d, "repo"), bins: map[string]string{}, keep: keep}
+	sharedDir = filepath.Join(d, "shared")
 	// copy the working tree (not .git, not the web assets)
 	if out, err := run("/", nil, "rsync", "-a", "--exclude=.git", "--exclude=/website", "--exclude=/client/www", repoDir+"/", s.repo+"/"); err != nil {
 		s.cleanup()
@@ -331,7 +335,7 @@ func runChild(bin, wdir string, env []string, limit time.Duration, gomaxprocs in
 	cmd := exec.Command(bin, "-test.run", "^TestSim$", "-test.timeout", "0", "-test.count", "1")
 	cmd.Dir = wdir
 	cmd.Env = append(os.Environ(), env...)
-	cmd.Env = append(cmd.Env, "VSIM_OUT="+outp, "VSIM_DIR="+wdir, "VSIM_SHARED="+filepath.Join(filepath.Dir(wdir), "shared"), "GORACE=halt_on_error=1 exitcode=66",
+	cmd.Env = append(cmd.Env, "VSIM_OUT="+outp, "VSIM_DIR="+wdir, "VSIM_SHARED="+sharedDir, "GORACE=halt_on_error=1 exitcode=66",
 		fmt.Sprintf("GOMAXPROCS=%d", gomaxprocs), "GOTRACEBACK=single")
 	var errb bytes.Buffer
 	cmd.Stdout = nil
